@@ -54,6 +54,7 @@ class Store(object):
     def __init__(self, **kw):
         self.s = None
         self.kw = kw
+        self.fault = ''
         self.fresh()
 
     def fresh(self):
@@ -81,7 +82,9 @@ class Store(object):
     def peek(self, a):
         r = self.s.ev('PEEK(%d)' % a)
         if r[0] != 'ok':
-            raise RuntimeError('PEEK(%d) -> %r' % (a, r))
+            # not a harness failure: the walk left the program (or PEEK itself broke); reported through obs.fault
+            self.fault = 'PEEK(%d) -> %s %s' % (a, r[0], r[1])
+            return 0
         return int(r[1])
 
     def peek16(self, a):
@@ -101,7 +104,7 @@ class Store(object):
         """PEEK walk of the line links from the program start (default segment = BASIC data segment)."""
         start = self.peek16(0x30)
         addr, res, term = start, [], False
-        while len(res) < limit and 0 <= addr < 65530:
+        while len(res) < limit and 0 <= addr < 65530 and not self.fault:
             link = self.peek16(addr)
             if link == 0:
                 term = True
@@ -133,10 +136,17 @@ class Store(object):
         return [n, int(m.group(1)) if m else -1]
 
     def observe(self, probes=(), screen=False):
+        self.fault = ''
         lst = self.listing(screen)
         start, ch, term, end = self.chain()
-        idx, rescan, relinks = self.index()
-        return {'list': lst, 'start': start, 'chain': ch, 'term': term, 'end': end, 'idx': idx, 'rescan': rescan,
+        if self.fault:
+            term = False
+        try:
+            idx, rescan, relinks = self.index()
+        except Exception as ex:     # the rescan of a corrupt buffer may fail: a finding, not a harness failure
+            self.fault = self.fault or 'rescan: %s: %s' % (type(ex).__name__, ex)
+            idx, rescan, relinks = [], [], []
+        return {'fault': self.fault, 'list': lst, 'start': start, 'chain': ch, 'term': term, 'end': end, 'idx': idx, 'rescan': rescan,
                 'relinks': relinks, 'goto': [self.goto(n) for n in probes]}
 
 
